@@ -48,6 +48,7 @@ def evaluate(plan):
     names = plan['names']
     texts = {n: shellscen.shell_text(docgen.file_text(plan['files'][n]))
              for n in names}
+    server = plan['mode'] == 'server'
     if plan.get('_want_subs'):
         res_kw['subs'] = [[s['text'], s['language'],
                            world.opts_tag({'argv': s['argv'][1:]})
@@ -57,8 +58,12 @@ def evaluate(plan):
     answer_faulted = any(k.startswith('answer_') for k in fired)
     nontrivial = obs['digest'] if answer_faulted else None
     detail = {'status': status, 'mode': plan['mode'],
+              'transport': plan.get('transport', 'run'),
               'fault': plan['peer'].get('faults'),
+              'ranges': plan['peer'].get('per_call'),
               'stderr_tail': stderr[-600:]}
+    probes['mode_' + plan['mode']] = 1
+    probes['transport_' + plan.get('transport', 'run')] = 1
 
     tb = shellscen.traceback_type(stderr)
     if status.startswith('exc:') or tb:
@@ -80,8 +85,11 @@ def evaluate(plan):
     else:
         return core.violation('C15/status:' + status, detail, obs['digest'],
                               probes=probes, nontrivial=nontrivial, **res_kw)
-    probs = shellscen.check_locations_in_file(plan['mode'], obs['stdout'],
-                                              texts, names, complete)
+    if server:
+        probs = check_server_responses(plan, obs, complete)
+    else:
+        probs = shellscen.check_locations_in_file(plan['mode'], obs['stdout'],
+                                                  texts, names, complete)
     if probs:
         detail['problems'] = probs[:5]
         key = probs[0].split(':')[0]
@@ -89,6 +97,50 @@ def evaluate(plan):
                               probes=probes, nontrivial=nontrivial, **res_kw)
     return core.ok(obs['digest'], probes=probes, nontrivial=nontrivial,
                    **res_kw)
+
+
+def check_server_responses(plan, obs, complete):
+    """--as-server: every answered request carries matches inside the
+    request text; an unanswered one is only acceptable as the last act of a
+    server that stopped with its diagnostic."""
+    probs = []
+    resps = obs.get('responses', [])
+    reqs = plan['requests']
+    for i, raw in enumerate(resps):
+        text = docgen.file_text(reqs[i]['doc'])
+        if not raw:
+            if complete or i < len(resps) - 1:
+                probs.append('server: request %d got no response' % i)
+            continue
+        head, _, body = raw.partition('\r\n\r\n')
+        if not head.startswith('HTTP/1.0 200'):
+            probs.append('server: request %d: %r' % (i, head[:40]))
+            continue
+        try:
+            doc = json.loads(body)
+        except ValueError:
+            probs.append('server: body of response %d is not JSON' % i)
+            continue
+        for m in doc.get('matches', []):
+            o, l = m.get('offset'), m.get('length')
+            if not (isinstance(o, int) and isinstance(l, int)):
+                probs.append('server: offset/length not integers')
+            elif not 0 <= o < max(len(text), 1):
+                probs.append('server: offset %d outside request text (len %d)'
+                             % (o, len(text)))
+            elif not 0 <= o + l <= len(text):
+                probs.append('server: offset+length %d outside request text'
+                             % (o + l))
+    if complete and len(resps) != len(reqs):
+        probs.append('server: %d responses for %d requests' % (len(resps),
+                                                               len(reqs)))
+    return probs
+
+
+def answer_obj(b, text, lang, tag):
+    if b.get('transport') == 'textgears':
+        return world.build_textgears_answer(text, tag, b['peer'])
+    return world.build_answer(text, lang, tag, b['peer'])
 
 
 # ---------------------------------------------------------------------
@@ -181,7 +233,36 @@ def gen_base(rng, mode, short=False, ml=None):
                                         nfiles=rng.choice([1, 1, 2]),
                                         max_frags=10, max_targets=3)
     base['peer']['dup'] = []
+    base['transport'] = 'run'
     return base
+
+
+def to_transport(base, transport):
+    """Variant of a base scenario over another transport (well-framed HTTP
+    body) or another proofreader (TextGears answer shape)."""
+    b = copy.deepcopy(base)
+    b['transport'] = transport
+    i = b['argv'].index('--output')
+    if transport == 'my':
+        b['argv'][i:i] = ['--server', 'my']
+        b['peer']['http'] = {'initially_up': True}
+    elif transport == 'textgears':
+        b['argv'][i:i] = ['--textgears', 'KEY']
+    return b
+
+
+def to_server(base):
+    """The same documents sent as requests to `--as-server`."""
+    b = copy.deepcopy(base)
+    b['mode'] = 'server'
+    i = b['argv'].index('--output')
+    argv = b['argv'][:i] + [a for a in b['argv'][i + 2:] if a not in b['names']]
+    b['argv'] = ['--as-server', '8082'] + argv
+    b['requests'] = [{'client': k, 'fields': [['language', b['lang']]],
+                      'doc': b['files'][n], 'text_pos': 1}
+                     for k, n in enumerate(b['names'])]
+    b['names'] = []
+    return b
 
 
 FIXED_TEX = 'Größe \\textbf{qbaz qdéz} übrig.\n\\footnote{Fuß qfiz.}\n'
@@ -220,7 +301,7 @@ def selftest_plans(seed, n):
         rng = core.run_rng(seed, PID, 'selftest', bi)
         k = rng.randrange(len(subs))
         text, lang, tag = subs[k]
-        obj = world.build_answer(text, lang, tag, b['peer'])
+        obj = answer_obj(b, text, lang, tag)
         faults, _ = enumerate_single_faults(obj, text, b['peer'])
         for f in rng.sample(faults, min(len(faults), max(1, n // len(bases)))):
             plans.append(with_fault(b, k, f, len(plans)))
@@ -259,7 +340,28 @@ def run(seed, tier, budget_s):
                 p['argv'][p['argv'].index('--output') + 1] = mode
                 bases.append(p)
         bases += fixed_bases()
+    # other transports / proofreader / the server emulation, derived from the
+    # seeded bases so that they share documents with the subprocess variants
+    extra = []
+    trng = core.run_rng(seed, PID, 'transports')
+    src = [b for b in bases if 'files' in b and b['mode'] != 'server']
+    if quick:
+        pick = trng.sample(src, min(len(src), 2))
+        extra.append(to_transport(pick[0], 'my'))
+        extra.append(to_transport(pick[-1], 'textgears'))
+        extra.append(to_server(src[0]))
+        extra.append(to_server(to_transport(src[-1], 'textgears')))
+    else:
+        for b in src:
+            extra.append(to_transport(b, trng.choice(['my', 'textgears'])))
+        for b in src[::5]:
+            extra.append(to_server(b))
+            extra.append(to_server(to_transport(b, 'textgears')))
+    for b in extra:
+        b['_derived'] = True
+    bases += extra
     for b in bases:
+        b.setdefault('transport', 'run')
         b['_want_subs'] = True
         b['_index'] = nxt()
     base_res = core.map_plans(MOD, bases)
@@ -279,9 +381,9 @@ def run(seed, tier, budget_s):
         # the fault lands on an invocation that has matches if possible
         cand = []
         for k, (text, lang, tag) in enumerate(subs):
-            obj = world.build_answer(text, lang, tag, b['peer'])
+            obj = answer_obj(b, text, lang, tag)
             cand.append((k, obj, text))
-        with_m = [c for c in cand if c[1]['matches']] or cand
+        with_m = [c for c in cand if c[1].get('matches') or c[1].get('errors')] or cand
         # the main sweep lands on the LAST invocation with matches (all earlier
         # parts have accumulated), a second, smaller one on another invocation
         k, obj, text = with_m[-1]
@@ -292,7 +394,13 @@ def run(seed, tier, budget_s):
             # seeded share of the byte truncations
             trunc = [f for f in faults if f['kind'] == 'truncate']
             chosen = [f for f in faults if f['kind'] != 'truncate']
-            chosen += frng.sample(trunc, min(len(trunc), 160))
+            if b.get('_derived'):
+                # other transport / server variants of a base: a seeded third
+                # of the plain retypings, everything else in full
+                chosen = [f for f in chosen if f['kind'] != 'retype_field'
+                          or f.get('perturb') or frng.random() < 0.34]
+            chosen += frng.sample(trunc, min(len(trunc),
+                                             60 if b.get('_derived') else 160))
         else:
             chosen = faults
             complete_sweeps += 1
@@ -361,7 +469,7 @@ def run(seed, tier, budget_s):
             b, subs = mrng.choice(usable)
             k = mrng.randrange(len(subs))
             text, lang, tag = subs[k]
-            obj = world.build_answer(text, lang, tag, b['peer'])
+            obj = answer_obj(b, text, lang, tag)
             faults, _ = enumerate_single_faults(obj, text, b['peer'])
             fs = [mrng.choice(faults) for _ in range(mrng.randrange(2, 4))]
             # truncation, if any, goes last (it acts on the bytes)
@@ -394,7 +502,7 @@ def run(seed, tier, budget_s):
             '(counted when the faulty answer is emitted); distinct = distinct '
             'event-log digests among those runs.')
     assumptions = [
-        'answer faults are delivered through a well-framed transport (subprocess stdout)',
+        'answer faults are delivered through a well-framed transport (subprocess stdout, or an HTTP body whose framing matches its length for --server my / --textgears)',
         'the fake proofreader answers as LanguageTool 4.7 would in shape (fields, types), with non-ASCII content',
         'quick tier samples each per-base fault space; thorough tier sweeps it completely (coverage.exhaustive refers to the per-base single-fault sweep only)',
     ]
@@ -402,7 +510,8 @@ def run(seed, tier, budget_s):
         'real': ['yalafi.shell.shell (module body, argparse)', 'yalafi.shell.proofreader',
                  'yalafi.shell.utils', 'yalafi.shell.gentext/genjson/genxml/genhtml',
                  'yalafi filter (tex2txt, parser, scanner, ...)', 'json, xml.etree'],
-        'stubbed': ['subprocess.run (LanguageTool process)', 'builtins.open for relative paths (in-memory files)',
+        'stubbed': ['subprocess.run (LanguageTool process)', 'urllib.request.urlopen (local LT server, TextGears)',
+                    'socket/serve_forever (clients of --as-server)', 'builtins.open for relative paths (in-memory files)',
                     'time.sleep/time.time'],
     }
     extra = {'per_base_single_fault_space_sizes': sweep_sizes[:12],
